@@ -3975,6 +3975,21 @@ async fn wait_for_sdes_descriptions(inner_weak: &std::sync::Weak<PeerConnectionI
         let Some(inner) = inner_weak.upgrade() else {
             return false;
         };
+        // Stop waiting when the connection was closed, and hand control back to
+        // the caller when the transport was stopped or failed meanwhile: it
+        // re-dispatches on the new ICE state (otherwise `ice_transport().stop()`
+        // or a close() before the second description is never acted upon and
+        // this loop polls forever).
+        if *inner.peer_state.borrow() == PeerConnectionState::Closed {
+            return false;
+        }
+        if !matches!(
+            inner.ice_transport.state(),
+            crate::transports::ice::IceTransportState::Connected
+                | crate::transports::ice::IceTransportState::Completed
+        ) {
+            return true;
+        }
         if inner.config.transport_mode != TransportMode::Srtp
             || (inner.local_description.lock().is_some()
                 && inner.remote_description.lock().is_some())
@@ -4023,6 +4038,13 @@ async fn run_rtp_direct_loop(
             | crate::transports::ice::IceTransportState::Completed => {
                 if !wait_for_sdes_descriptions(&inner_weak).await {
                     return;
+                }
+                if !matches!(
+                    *ice_state_rx.borrow(),
+                    crate::transports::ice::IceTransportState::Connected
+                        | crate::transports::ice::IceTransportState::Completed
+                ) {
+                    continue;
                 }
                 if !handle_connected_state_no_dtls(&inner_weak, &mut ice_state_rx).await {
                     if let Some(inner) = inner_weak.upgrade() {
